@@ -192,6 +192,74 @@ func runC14(r *core.Run) {
 			return core.OK("panics", true)
 		})
 
+	// TranslateReadingFrames is defined through Translate: frame i is Translate of seq[i:] cut to whole
+	// codons. That holds for ANY bytes, including where Translate panics: bytes are bytes, whatever text
+	// encoding they look like (a case mapping applied to the text changes its LENGTH for some code points).
+	r.Bound("reading-frames-arbitrary-bytes", "every 2-byte string and the UTF-8 encoding of every code point U+0080..U+10FFFF, each alone and as A+x, x+G, AC+x, x+x, AC+x+GT"+core.Pick(r, "", "; every 3-byte string"))
+	core.Clause(r, "reading-frames-arbitrary-bytes", core.Opts{Rule: "for any byte string: TranslateReadingFrames panics iff Translate panics on one of the three frames (seq[i:] cut to whole codons, i = 0, 1, 2), and otherwise returns exactly the three Translate results; non-trivial = all"},
+		func(emit func(c14Bad) bool) {
+			forms := func(x string) bool {
+				for _, s := range []string{x, "A" + x, x + "G", "AC" + x, x + x, "AC" + x + "GT"} {
+					if !emit(c14Bad{core.S(s)}) {
+						return false
+					}
+				}
+				return true
+			}
+			for a := 0; a < 256; a++ {
+				for b := 0; b < 256; b++ {
+					if !forms(string([]byte{byte(a), byte(b)})) {
+						return
+					}
+				}
+			}
+			if !enum.Runes(0x80, 0x10FFFF, func(cp rune) bool { return forms(string(cp)) }) {
+				return
+			}
+			if r.Thorough() {
+				for a := 0; a < 256; a++ {
+					for b := 0; b < 256; b++ {
+						for c := 0; c < 256; c++ {
+							if !emit(c14Bad{core.S([]byte{byte(a), byte(b), byte(c)})}) {
+								return
+							}
+						}
+					}
+				}
+			}
+		},
+		func(c c14Bad) core.Outcome {
+			seq := c.Seq.B()
+			var want [3][]byte
+			mustPanic := false
+			for i := 0; i < 3; i++ {
+				sub := seq[min(i, len(seq)):]
+				sub = sub[:len(sub)/3*3]
+				w, ok := ref.Translate(sub)
+				if !ok {
+					mustPanic = true
+				}
+				want[i] = w
+			}
+			var got [3][]byte
+			p := catch(func() { got = sequtil.TranslateReadingFrames(bytes.Clone(seq)) })
+			if mustPanic {
+				if p == "" {
+					return core.Failf("TranslateReadingFrames(%q) returned %q although Translate panics on one of its frames", seq, got)
+				}
+				return core.OK("panics", true)
+			}
+			if p != "" {
+				return core.Failf("TranslateReadingFrames(%q) panicked (%s) although Translate accepts all three frames", seq, p)
+			}
+			for i := range got {
+				if !bytes.Equal(got[i], want[i]) {
+					return core.Failf("TranslateReadingFrames(%q)[%d] = %q, Translate of that frame gives %q", seq, i, got[i], want[i])
+				}
+			}
+			return core.OK("accepted", true)
+		})
+
 	core.Clause(r, "dst-shares-memory-with-src", core.Opts{Rule: dstAliasRule},
 		genDstAlias([]string{"", "ATG", "atgGCAtggAAA", "ATGGCATGGAAATAGCCCGGGTTTACGTGA", "ATGNCA", "NNN", "AT", "ATGG"}),
 		checkDstAlias("Translate", sequtil.Translate, ref.Translate))
